@@ -112,9 +112,12 @@ def gen_targets(seed: int, tier: dict, pools) -> list[dict]:
     # Each batch goes deep on a seeded subset of the families (>= 4 members each) rather than thin on all.
     gen_fams = sorted(genmodels.FAMILIES)
     rng.sub("famorder").shuffle(gen_fams)
-    per_fam = tier.get("per_family", 5)
-    n_gen = len(gen_fams)
-    gen_slots = [gen_fams[i // per_fam] for i in range(n_gen * per_fam)]
+    per_fam = tier.get("per_family", 3)
+    gen_slots, gen_member = [], []
+    for gf in gen_fams:
+        n_mem = max(per_fam, genmodels.members_per_batch(gf, per_fam, cap=tier.get("variant_cap", 9)))
+        gen_slots += [gf] * n_mem
+        gen_member += list(range(n_mem))
     # the version converter's own test models are the ones on which adapters replace nodes
     vc_texts = [(f, t) for f, t in pools.texts if "version_converter" in f]
     rng.sub("vcorder").shuffle(vc_texts)
@@ -131,7 +134,7 @@ def gen_targets(seed: int, tier: dict, pools) -> list[dict]:
     for i in range(len(gen_slots) + len(script_slots) + max(8, n_models // 3)):
         r = rng.sub("m", i)
         if i < len(gen_slots):
-            f, text = genmodels.gen_model(r.sub("gen"), gen_slots[i], member=i % per_fam,
+            f, text = genmodels.gen_model(r.sub("gen"), gen_slots[i], member=gen_member[i],
                                           offset=rng.sub("variant-offset", gen_slots[i]).below(64))
             m = {"pool": "text", "text": text, "family": f}
         elif i < len(gen_slots) + len(script_slots):
